@@ -6,7 +6,7 @@
                              then    E
      C <sexp of a prog>     answer:  B <wfb> <check diags> <check_pinned diags>      (no mutants)
      (check = the frontend as it is now, check_pinned = the pinned tree with its four defects)
-     Q <flags> <sexp>       answer:  B <wfb> <check_with flags> -      flags = 4 chars 0/1: void_eq void_ret tc_by_name field_unimported
+     Q <flags> <sexp>       answer:  B <wfb> <check_with flags> -      flags = 5 chars 0/1: void_eq void_ret tc_by_name field_unimported field_name_lookup
    diags are a comma separated list of constructor names ("-" when empty). *)
 open C04_model
 open Common
@@ -119,6 +119,7 @@ let d_idecl = function
   | L [A "ifun"; p; f; L ps; r] ->
     IFun (d_bool p, d_name f, List.map d_pty ps, (match r with A "none" -> None | t -> Some (d_ty t)))
   | L [A "istruct"; p; s; g; L fs] -> IStruct (d_bool p, d_name s, d_art g, List.map d_field fs)
+  | L [A "ialias"; c; s; L fs] -> IAlias (d_name c, d_name s, List.map d_name fs)
   | x -> bad "idecl" x
 let d_import = function
   | L [A "none"] -> ImpNone
@@ -195,6 +196,7 @@ let e_idecl = function
        (match r with None -> A "none" | Some t -> e_ty t)]
   | IStruct (p, s, g, fs) ->
     L [A "istruct"; e_bool p; e_name s; e_art g; L (List.map (fun ((p, n), t) -> L [e_bool p; e_name n; e_ty t]) fs)]
+  | IAlias (c, s, fs) -> L [A "ialias"; e_name c; e_name s; L (List.map e_name fs)]
 let e_import = function
   | ImpNone -> L [A "none"]
   | ImpAll -> L [A "all"]
@@ -239,9 +241,10 @@ let () =
                  (mutants fc p)) all_faults;
            print_endline "E"
          | 'Q' ->
-           let fl = String.sub body 0 4 in
-           let p = d_prog (parse_sx (String.sub body 5 (String.length body - 5))) in
-           let q = { q_void_eq = fl.[0] = '1'; q_void_ret = fl.[1] = '1'; q_tc_by_name = fl.[2] = '1'; q_field_unimported = fl.[3] = '1' } in
+           let fl = String.sub body 0 5 in
+           let p = d_prog (parse_sx (String.sub body 6 (String.length body - 6))) in
+           let q = { q_void_eq = fl.[0] = '1'; q_void_ret = fl.[1] = '1'; q_tc_by_name = fl.[2] = '1'; q_field_unimported = fl.[3] = '1';
+                     q_field_name_lookup = fl.[4] = '1' } in
            Printf.printf "B %d %s -\n" (if wfb p then 1 else 0) (diags (check_with q p))
          | _ -> ());
       flush stdout;
